@@ -28,16 +28,17 @@ echo "--- demo with the change: exit $WITH (want != 0); without: exit $WITHOUT (
 # run the checks against /repo with the patch applied
 cd /repo || exit 2
 if ! git diff --quiet; then echo "/repo is dirty, aborting"; exit 2; fi
-git apply $OUT/patch.diff || { echo "patch does not apply to /repo"; exit 2; }
+git apply $OUT/patch.diff 2>/dev/null || git apply -3 $OUT/patch.diff || { echo "patch does not apply to /repo"; git checkout -- . ; git reset -q; exit 2; }
+git reset -q   # a 3-way apply stages the result; the checks only need the working tree
 cd /verif
 CAUGHT=""
 for c in $CHECKS; do
-  ./verifctl check $c > /tmp/seeded_check_$ID_$c.log 2>&1; rc=$?
-  rules=$(grep -A1 '^VIOLATION' /tmp/seeded_check_$ID_$c.log | grep 'rule=' | sed 's/ *rule=//' | sort -u | tr '\n' ' ')
+  ./verifctl check $c > /tmp/seeded_check_${ID}_$c.log 2>&1; rc=$?
+  rules=$(grep -A1 '^VIOLATION' /tmp/seeded_check_${ID}_$c.log | grep 'rule=' | sed 's/ *rule=//' | sort -u | tr '\n' ' ')
   echo "    $c exit=$rc $rules"
   if [ $rc -eq 1 ]; then CAUGHT="$CAUGHT $c[$rules]"; fi
-  if [ $rc -eq 2 ]; then tail -5 /tmp/seeded_check_$ID_$c.log; fi
+  if [ $rc -eq 2 ]; then tail -5 /tmp/seeded_check_${ID}_$c.log; fi
 done
-git -C /repo checkout -- .
+git -C /repo reset -q; git -C /repo checkout -- .
 echo "--- caught by:$CAUGHT"
 echo "{\"base\": $BASE, \"demo_with\": $WITH, \"demo_without\": $WITHOUT, \"caught\": \"$CAUGHT\"}" > $OUT/eval.json
